@@ -35,7 +35,7 @@ PROPS = {
                 "join/bind pattern (select one of several targets by the driver's input, always or only when new), add + remove by position, "
                 "duplicate dependencies on one child, make_stale, dependencies added from outside while observed, observer churn; "
                 "non-trivial = distinct history in which an expert node was recomputed"),
-    "C03": spec(["IncrVerif.Props.C03", "IncrVerif.Props.C03Order", "IncrVerif.Props.C03Nested", "IncrVerif.Props.C01Full"], [("bind", 0.7), ("general", 0.3)], ["api", "ev", "read", "snap"],
+    "C03": spec(["IncrVerif.Props.C03", "IncrVerif.Props.C03Order", "IncrVerif.Props.C03Nested", "IncrVerif.Props.C01Full", "IncrVerif.Props.C03Full"], [("bind", 0.7), ("general", 0.3)], ["api", "ev", "read", "snap"],
                 GEN + "both build profiles; generations are reconstructed from the trace (closure runs in order, consecutive node indices); "
                 "non-trivial = distinct history in which a bind closure ran at least twice",
                 builds=("debug", "release"), nq=200),
